@@ -299,7 +299,8 @@ Proof. intros [L _]. unfold FLof. rewrite L. reflexivity. Qed.
 Definition XSpec (top : string) (rec : path -> xstate -> outcome xstate) : Prop :=
   forall q s s', rec q s = Done s' -> ~ In q (xseen s) ->
     exists order, xt s' = xsteps (FLof (xt s)) top order (xt s) /\
-                  (forall m, In m order -> ~ In m (xseen s)) /\ incl (xseen s) (xseen s') /\ In q (xseen s').
+                  (forall m, In m order -> ~ In m (xseen s)) /\ incl (xseen s) (xseen s') /\ In q (xseen s') /\
+                  xdone s' = rev order ++ xdone s.      (* the order is the one in which the modules are marked done *)
 
 Section LoopSpecs.
 Variable top : string.
@@ -312,11 +313,12 @@ Lemma xitems_spec : forall its acc s r s',
   xitems rec top mp st its acc s = Done (r, s') ->
   exists order, xt s' = xsteps (FLof (xt s)) top order (xt s) /\
                 (forall m, In m order -> ~ In m (xseen s)) /\ incl (xseen s) (xseen s') /\
-                r = fold_left (sitem (FLof (xt s)) (xt s') top mp st) its acc.
+                r = fold_left (sitem (FLof (xt s)) (xt s') top mp st) its acc /\
+                xdone s' = rev order ++ xdone s.
 Proof.
   induction its as [|[x|l a] its IH]; intros acc s r s' Hx.
-  - simpl in Hx. inversion Hx; subst. exists []. split; [reflexivity|]. split; [intros m []|]. split; [apply incl_refl|reflexivity].
-  - simpl in Hx. destruct (IH _ _ _ _ Hx) as [order [Ht [Hn [Hi Hr]]]]. exists order. split; auto.
+  - simpl in Hx. inversion Hx; subst. exists []. split; [reflexivity|]. split; [intros m []|]. split; [apply incl_refl|]. split; reflexivity.
+  - simpl in Hx. destruct (IH _ _ _ _ Hx) as [order [Ht [Hn [Hi [Hr Hd]]]]]. exists order. split; auto.
   - simpl in Hx. fold (FLof (xt s)) in Hx.
     destruct (source_module (FLof (xt s)) (xt s) top mp st l a) as [[q|]|] eqn:Esrc.
     + (* a module is spliced in *)
@@ -324,27 +326,30 @@ Proof.
       assert (Hafter : exists s1' order1,
                 (if mem_path q (xseen s) then Done s1 else rec q s1) = Done s1' /\
                 xt s1' = xsteps (FLof (xt s)) top order1 (xt s) /\
-                (forall m, In m order1 -> ~ In m (xseen s)) /\ incl (xseen s) (xseen s1') /\ In q (xseen s1')).
+                (forall m, In m order1 -> ~ In m (xseen s)) /\ incl (xseen s) (xseen s1') /\ In q (xseen s1') /\
+                xdone s1' = rev order1 ++ xdone s).
       { destruct (mem_path q (xseen s)) eqn:Eseen.
-        - exists s1, []. split; [reflexivity|]. split; [reflexivity|]. split; [intros m []|]. split; [apply incl_refl|]. apply mem_path_In. exact Eseen.
+        - exists s1, []. split; [reflexivity|]. split; [reflexivity|]. split; [intros m []|]. split; [apply incl_refl|]. split; [apply mem_path_In; exact Eseen|reflexivity].
         - destruct (rec q s1) as [s1'| |] eqn:Er; try (exfalso; simpl in Hx; discriminate).
           assert (Hq : ~ In q (xseen s1)) by (intros Hin; apply mem_path_In in Hin; change (xseen s1) with (xseen s) in Hin; congruence).
-          destruct (Hrec q s1 s1' Er Hq) as [order1 [Ht [Hn [Hi Hqs]]]]. exists s1', order1. split; [reflexivity|]. split; [exact Ht|]. split; [exact Hn|]. split; [exact Hi|exact Hqs]. }
-      destruct Hafter as [s1' [order1 [Ha [Ht1 [Hn1 [Hi1 Hq1]]]]]]. rewrite Ha in Hx.
+          destruct (Hrec q s1 s1' Er Hq) as [order1 [Ht [Hn [Hi [Hqs Hd]]]]]. exists s1', order1. split; [reflexivity|]. split; [exact Ht|]. split; [exact Hn|]. split; [exact Hi|]. split; [exact Hqs|exact Hd]. }
+      destruct Hafter as [s1' [order1 [Ha [Ht1 [Hn1 [Hi1 [Hq1 Hd1]]]]]]]. rewrite Ha in Hx.
       assert (Hsame1 : same_members (xt s) (xt s1')) by (rewrite Ht1; apply xsteps_same).
       (* the rest of the loop, from the state s2 that differs from s1' in the pending list only *)
-      assert (Hrest : forall acc' s2, xt s2 = xt s1' -> xseen s2 = xseen s1' ->
+      assert (Hrest : forall acc' s2, xt s2 = xt s1' -> xseen s2 = xseen s1' -> xdone s2 = xdone s1' ->
                 xitems rec top mp st its acc' s2 = Done (r, s') ->
                 acc' = sitem (FLof (xt s)) (xt s') top mp st acc (IRef l a) ->
                 exists order, xt s' = xsteps (FLof (xt s)) top order (xt s) /\
                               (forall m, In m order -> ~ In m (xseen s)) /\ incl (xseen s) (xseen s') /\
-                              r = fold_left (sitem (FLof (xt s)) (xt s') top mp st) (IRef l a :: its) acc).
-      { intros acc' s2 Ht2 Hs2 Hx2 Hacc. destruct (IH _ _ _ _ Hx2) as [order2 [Ht [Hn [Hi Hr]]]].
-        rewrite Ht2, <- (FLof_same _ _ Hsame1) in Ht, Hr. exists (order1 ++ order2). split; [|split; [|split]].
+                              r = fold_left (sitem (FLof (xt s)) (xt s') top mp st) (IRef l a :: its) acc /\
+                              xdone s' = rev order ++ xdone s).
+      { intros acc' s2 Ht2 Hs2 Hd2 Hx2 Hacc. destruct (IH _ _ _ _ Hx2) as [order2 [Ht [Hn [Hi [Hr Hd]]]]].
+        rewrite Ht2, <- (FLof_same _ _ Hsame1) in Ht, Hr. exists (order1 ++ order2). split; [|split; [|split; [|split]]].
         - rewrite xsteps_app, <- Ht1. exact Ht.
         - intros m Hm. apply in_app_or in Hm. destruct Hm as [Hm|Hm]; auto. intros Hin. apply (Hn m Hm). rewrite Hs2. apply Hi1. auto.
         - intros x0 Hx0. apply Hi. rewrite Hs2. apply Hi1. auto.
-        - cbn [fold_left]. rewrite <- Hacc. exact Hr. }
+        - cbn [fold_left]. rewrite <- Hacc. exact Hr.
+        - rewrite Hd, Hd2, Hd1, rev_app_distr, <- app_assoc. reflexivity. }
       (* the value read for this item is the one the schedule step reads in the final table of the loop *)
       assert (Hread : forall order2, xt s' = xsteps (FLof (xt s)) top order2 (xt s1') -> (forall m, In m order2 -> ~ In m (xseen s1')) ->
                 sitem (FLof (xt s)) (xt s') top mp st acc (IRef l a) =
@@ -362,19 +367,22 @@ Proof.
         -- match type of Hx with xitems _ _ _ _ _ _ ?sx = _ => set (s2 := sx) in Hx end.
            assert (Ht2 : xt s2 = xt s1') by (unfold s2; destruct (negb _ && _); reflexivity).
            assert (Hs2 : xseen s2 = xseen s1') by (unfold s2; destruct (negb _ && _); reflexivity).
+           assert (Hd2 : xdone s2 = xdone s1') by (unfold s2; destruct (negb _ && _); reflexivity).
            destruct (IH _ _ _ _ Hx) as [order2 [Ht [Hn _]]]. rewrite Ht2, <- (FLof_same _ _ Hsame1) in Ht. rewrite Hs2 in Hn.
-           apply (Hrest _ s2 Ht2 Hs2 Hx). rewrite (Hread order2 Ht Hn); rewrite ?Eg; rewrite ?Ee; reflexivity.
+           apply (Hrest _ s2 Ht2 Hs2 Hd2 Hx). rewrite (Hread order2 Ht Hn); rewrite ?Eg; rewrite ?Ee; reflexivity.
         -- destruct (IH _ _ _ _ Hx) as [order2 [Ht [Hn _]]]. rewrite <- (FLof_same _ _ Hsame1) in Ht.
-           apply (Hrest _ s1' eq_refl eq_refl Hx). rewrite (Hread order2 Ht Hn); rewrite ?Eg; rewrite ?Ee; reflexivity.
+           apply (Hrest _ s1' eq_refl eq_refl eq_refl Hx). rewrite (Hread order2 Ht Hn); rewrite ?Eg; rewrite ?Ee; reflexivity.
       * destruct (IH _ _ _ _ Hx) as [order2 [Ht [Hn _]]]. rewrite <- (FLof_same _ _ Hsame1) in Ht.
-        apply (Hrest _ s1' eq_refl eq_refl Hx). rewrite (Hread order2 Ht Hn); rewrite ?Eg; reflexivity.
+        apply (Hrest _ s1' eq_refl eq_refl eq_refl Hx). rewrite (Hread order2 Ht Hn); rewrite ?Eg; reflexivity.
     + (* the source is dropped *)
-      destruct (IH _ _ _ _ Hx) as [order [Ht [Hn [Hi Hr]]]]. simpl in Ht, Hn, Hi, Hr. exists order. repeat split; auto.
+      destruct (IH _ _ _ _ Hx) as [order [Ht [Hn [Hi [Hr Hd]]]]]. simpl in Ht, Hn, Hi, Hr, Hd. exists order.
+      split; [exact Ht|]. split; [exact Hn|]. split; [exact Hi|]. split; [|exact Hd].
       cbn [fold_left]. unfold sitem at 2.
       assert (Hs' : same_members (xt s) (xt s')) by (rewrite Ht; apply xsteps_same).
       rewrite <- (source_module_same _ (xt s) (xt s') top mp st l a Hs'), Esrc. exact Hr.
     + (* outside the model *)
-      destruct (IH _ _ _ _ Hx) as [order [Ht [Hn [Hi Hr]]]]. simpl in Ht, Hn, Hi, Hr. exists order. repeat split; auto.
+      destruct (IH _ _ _ _ Hx) as [order [Ht [Hn [Hi [Hr Hd]]]]]. simpl in Ht, Hn, Hi, Hr, Hd. exists order.
+      split; [exact Ht|]. split; [exact Hn|]. split; [exact Hi|]. split; [|exact Hd].
       cbn [fold_left]. unfold sitem at 2.
       assert (Hs' : same_members (xt s) (xt s')) by (rewrite Ht; apply xsteps_same).
       rewrite <- (source_module_same _ (xt s) (xt s') top mp st l a Hs'), Esrc. exact Hr.
@@ -383,22 +391,24 @@ Qed.
 Lemma xsubs_spec : forall ms s s',
   xsubs rec mp ms s = Done s' ->
   exists order, xt s' = xsteps (FLof (xt s)) top order (xt s) /\
-                (forall m, In m order -> ~ In m (xseen s)) /\ incl (xseen s) (xseen s').
+                (forall m, In m order -> ~ In m (xseen s)) /\ incl (xseen s) (xseen s') /\
+                xdone s' = rev order ++ xdone s.
 Proof.
   induction ms as [|[c m] ms IH]; intros s s' Hx; simpl in Hx.
-  - inversion Hx; subst. exists []. split; [reflexivity|]. split; [intros m []|apply incl_refl].
+  - inversion Hx; subst. exists []. split; [reflexivity|]. split; [intros m []|]. split; [apply incl_refl|reflexivity].
   - destruct m; try (apply IH; exact Hx).
     destruct (mem_path (mp ++ [c]) (xseen s)) eqn:Eseen; [apply IH; exact Hx|].
     destruct (rec (mp ++ [c]) s) as [s1| |] eqn:Er; try discriminate.
     assert (Hq : ~ In (mp ++ [c]) (xseen s)) by (intros Hin; apply mem_path_In in Hin; congruence).
-    destruct (Hrec _ s s1 Er Hq) as [order1 [Ht1 [Hn1 [Hi1 _]]]].
-    destruct (IH _ _ Hx) as [order2 [Ht2 [Hn2 Hi2]]].
+    destruct (Hrec _ s s1 Er Hq) as [order1 [Ht1 [Hn1 [Hi1 [_ Hd1]]]]].
+    destruct (IH _ _ Hx) as [order2 [Ht2 [Hn2 [Hi2 Hd2]]]].
     assert (Hsame1 : same_members (xt s) (xt s1)) by (rewrite Ht1; apply xsteps_same).
     rewrite <- (FLof_same _ _ Hsame1) in Ht2.
-    exists (order1 ++ order2). split; [|split].
+    exists (order1 ++ order2). split; [|split; [|split]].
     + rewrite xsteps_app, <- Ht1. exact Ht2.
     + intros m Hm. apply in_app_or in Hm. destruct Hm as [Hm|Hm]; auto. intros Hin. apply (Hn2 m Hm). apply Hi1. auto.
     + intros x Hx0. apply Hi2. apply Hi1. auto.
+    + rewrite Hd2, Hd1, rev_app_distr, <- app_assoc. reflexivity.
 Qed.
 
 End LoopSpecs.
@@ -413,10 +423,11 @@ Proof.
   set (s0 := mkX (xt s) (mp :: xseen s) (xunsup s) (xdropped s) (xdone s) (xpending s) (xhops s)) in *.
   change (xt s0) with (xt s) in Hx.
   destruct (get_mod (xt s) mp) as [st|] eqn:Eg.
-  2:{ inversion Hx; subst s'. exists []. split; [reflexivity|]. split; [intros m []|]. split; [intros x Hx0; right; exact Hx0|left; reflexivity]. }
+  2:{ inversion Hx; subst s'. exists []. split; [reflexivity|]. split; [intros m []|]. split; [intros x Hx0; right; exact Hx0|]. split; [left; reflexivity|reflexivity]. }
   destruct (xitems (expx f top) top mp st (match exports st with Some ex => ex | None => [] end) [] s0) as [[expanded s1]| |] eqn:Ei;
     try discriminate.
-  destruct (xitems_spec top (expx f top) IH mp st _ _ _ _ _ Ei) as [order1 [Ht1 [Hn1 [Hi1 Hexp]]]].
+  destruct (xitems_spec top (expx f top) IH mp st _ _ _ _ _ Ei) as [order1 [Ht1 [Hn1 [Hi1 [Hexp Hd1]]]]].
+  change (xdone s0) with (xdone s) in Hd1.
   change (xt s0) with (xt s) in Ht1, Hexp. change (xseen s0) with (mp :: xseen s) in Hn1, Hi1.
   assert (Hsame1 : same_members (xt s) (xt s1)) by (rewrite Ht1; apply xsteps_same).
   assert (Hmp1 : get_mod (xt s1) mp = Some st).
@@ -428,12 +439,13 @@ Proof.
     rewrite sched_items_fold, Hexp. reflexivity. }
   rewrite Hstep in Hx.
   match type of Hx with xsubs _ _ _ ?sx = _ => set (s2 := sx) in Hx end.
-  destruct (xsubs_spec top (expx f top) IH mp _ _ _ Hx) as [order2 [Ht2 [Hn2 Hi2]]].
+  destruct (xsubs_spec top (expx f top) IH mp _ _ _ Hx) as [order2 [Ht2 [Hn2 [Hi2 Hd2]]]].
+  change (xdone s2) with (mp :: xdone s1) in Hd2.
   change (xt s2) with (sched_exports_step (FLof (xt s)) top (xt s1) mp) in Ht2. change (xseen s2) with (xseen s1) in Hn2, Hi2.
   assert (Hsame2 : same_members (xt s) (sched_exports_step (FLof (xt s)) top (xt s1) mp)).
   { eapply same_members_trans; [exact Hsame1|apply sched_exports_step_same]. }
   rewrite <- (FLof_same _ _ Hsame2) in Ht2.
-  exists (order1 ++ mp :: order2). split; [|split; [|split]].
+  exists (order1 ++ mp :: order2). split; [|split; [|split; [|split]]].
   - rewrite xsteps_app. simpl. rewrite <- Ht1. exact Ht2.
   - intros m Hm. apply in_app_or in Hm. destruct Hm as [Hm|[Hm|Hm]].
     + intros Hin. apply (Hn1 m Hm). right. auto.
@@ -441,6 +453,7 @@ Proof.
     + intros Hin. apply (Hn2 m Hm). apply Hi1. right. auto.
   - intros x Hx0. apply Hi2. apply Hi1. right. auto.
   - apply Hi2. apply Hi1. left. auto.
+  - rewrite Hd2, Hd1, rev_app_distr. simpl. rewrite <- !app_assoc. reflexivity.
 Qed.
 
 (* The exports phase of griffe.load: every table, every fuel.  The traversal performs exactly the schedule's per-module
@@ -448,16 +461,17 @@ Qed.
 Theorem expx_is_a_schedule fuel top mp s s' :
   expx fuel top mp s = Done s' -> ~ In mp (xseen s) ->
   exists order, xt s' = fold_left (sched_exports_step (S (List.length (xt s) * 8 + 64)) top) order (xt s) /\
-                (forall m, In m order -> ~ In m (xseen s)) /\ In mp (xseen s').
+                (forall m, In m order -> ~ In m (xseen s)) /\ In mp (xseen s') /\ xdone s' = rev order ++ xdone s.
 Proof.
-  intros Hx Hnew. destruct (expx_spec top fuel mp s s' Hx Hnew) as [order [Ht [Hn [_ Hq]]]]. exists order. auto.
+  intros Hx Hnew. destruct (expx_spec top fuel mp s s' Hx Hnew) as [order [Ht [Hn [_ [Hq Hd]]]]]. exists order. auto.
 Qed.
 
 (* the exports phase of griffe_load *)
 Corollary load_exports_phase top ms x :
   expx (total_fuel ms) top [top] (mkX (initial_table ms) [] false [] [] [] []) = Done x ->
-  exists order, xt x = fold_left (sched_exports_step (S (List.length ms * 8 + 64)) top) order (initial_table ms) /\ In [top] (xseen x).
+  xt x = fold_left (sched_exports_step (S (List.length ms * 8 + 64)) top) (rev (xdone x)) (initial_table ms).
 Proof.
-  intros Hx. destruct (expx_is_a_schedule _ _ _ _ _ Hx) as [order [Ht [_ Hq]]]; [intros []|].
-  simpl in Ht. unfold initial_table in Ht at 1. rewrite map_length in Ht. exists order. auto.
+  intros Hx. destruct (expx_is_a_schedule _ _ _ _ _ Hx) as [order [Ht [_ [_ Hd]]]]; [intros []|].
+  simpl in Ht, Hd. unfold initial_table in Ht at 1. rewrite map_length in Ht. rewrite app_nil_r in Hd.
+  rewrite Hd, rev_involutive. exact Ht.
 Qed.
